@@ -689,12 +689,20 @@ async fn directed(s: &mut S, class: &str) {
             let bqc = s.tip_qc.clone();
             let c = s.advance(vec![], true).await;
             let d = s.advance(vec![], true).await; // carries QC(c): R commits b
-            let _ = (c, d);
             // the rest of the network never saw c: it continues from b with a TC
             s.tip = b;
             s.tip_qc = bqc;
             s.cur += 1;
             for _ in 0..5 {
+                s.advance(vec![], true).await;
+            }
+            // late re-delivery of the orphaned branch (c is certified but abandoned, d never was certified)
+            for late in [c, d].iter().flatten() {
+                s.act(format!("late re-delivery of orphaned r{}", late.round));
+                s.deliver(late).await;
+                s.settle().await;
+            }
+            for _ in 0..2 {
                 s.advance(vec![], true).await;
             }
         }
